@@ -64,6 +64,7 @@ type c16Cfg struct {
 	Wire   bool     // use the wire driver (peer is loopback)
 	TLS    bool     // needs certificate files
 	NoAuth bool     // skip authenticated endpoints
+	OverTLS bool    // every request (login, base and with-headers) goes over the TLS wire driver: the handler sees req.TLS != nil
 	HTTPS  bool     // the harness browser presents Secure cookies (instance itself is driven over plain HTTP)
 }
 
@@ -79,6 +80,9 @@ func c16Configs(w *vfWorld, run *vfRun) []c16Cfg {
 		{Name: "cookie-secure", Host: "proxy.test", HTTPS: true, Flags: append([]string{"--cookie-secure=true"}, wl...)},
 		{Name: "skip-provider-button+all", Host: "app.cookie.example.com", Flags: append(append([]string{"--skip-provider-button=true", "--trusted-ip=10.0.0.0/8", "--skip-auth-route=GET=^/open/", "--api-route=^/api/", "--real-client-ip-header=X-Forwarded-For"}, wl...), cd...), Peers: []string{"", "10.5.5.5:40000"}},
 		{Name: "wire+all", Host: "www.example.org", Wire: true, Flags: append(append([]string{"--trusted-ip=10.0.0.0/8", "--skip-auth-route=^/open/", "--api-route=^/api/"}, wl...), cd...)},
+		// the same option, but the client speaks TLS to the proxy (as on --https-address): already-secure requests must be
+		// served, with or without forwarding headers; all endpoint classes incl. the authenticated ones
+		{Name: "force-https+tls-listener", Host: "www.example.org", TLS: true, OverTLS: true, HTTPS: true, Flags: append(append([]string{"--force-https=true", "--https-address=127.0.0.1:0", "--trusted-ip=10.0.0.0/8", "--skip-auth-route=^/open/", "--api-route=^/api/"}, wl...), cd[1:]...)},
 		{Name: "force-https", Host: "proxy.test:4180", TLS: true, NoAuth: true, Flags: append([]string{"--force-https=true", "--https-address=127.0.0.1:0"}, wl...)},
 	}
 	return cfgs
@@ -295,13 +299,47 @@ type c16Exec struct {
 	Cookie string
 }
 
+func (x *c16Exec) send(r *vfReq) *vfResp {
+	switch {
+	case x.Cfg.OverTLS:
+		return x.P.WireTLS(r)
+	case x.Cfg.Wire:
+		return x.P.Wire(r)
+	}
+	return x.P.Do(r)
+}
+
+// startLoginTLS: GET /oauth2/start over TLS (no forwarding headers), code from the IdP; returns the browser (CSRF cookie
+// in its jar) and the callback target.
+func (x *c16Exec) startLoginTLS(rd string) (*vfBrowser, string, error) {
+	b := vfNewBrowser(x.Cfg.Host)
+	b.HTTPS = true
+	resp := x.P.WireTLS(vfGET("/oauth2/start?rd=" + vfQueryEscape(rd)).WithHost(x.Cfg.Host))
+	if resp.Code != 302 {
+		return b, "", fmt.Errorf("start over TLS: status %d %s", resp.Code, resp.Err)
+	}
+	b.Jar.Apply(x.Cfg.Host, "/oauth2/start", resp.SetCookies())
+	code, ar, err := x.W.IdP.Authorize(resp.Location(), vfStdIdentity)
+	if err != nil {
+		return b, "", err
+	}
+	return b, "/oauth2/callback?code=" + vfQueryEscape(code) + "&state=" + vfQueryEscape(ar.Params.Get("state")), nil
+}
+
 // run one execution of endpoint ep with the extra headers hdr from peer.
 func (x *c16Exec) do(ep c16Endpoint, peer string, hdr [][2]string, id string) (*vfReq, *vfResp) {
-	send := func(r *vfReq) *vfResp {
-		if x.Cfg.Wire {
-			return x.P.Wire(r)
+	send := x.send
+	if ep.Flow == "callback-valid" && x.Cfg.OverTLS {
+		b, target, err := x.startLoginTLS("/after?login=1")
+		if err != nil {
+			return nil, &vfResp{Err: "start failed: " + err.Error(), Header: http.Header{}}
 		}
-		return x.P.Do(r)
+		req := vfNewReq("GET", target, "X-Vf-Id", id, "X-Request-Id", "c16-fixed-request-id").WithHost(x.Cfg.Host)
+		if cs := b.Jar.For(x.Cfg.Host, "/oauth2/callback", true); len(cs) > 0 {
+			req.H("Cookie", vfCookieHeader(cs))
+		}
+		req.Headers = append(req.Headers, hdr...)
+		return req, send(req)
 	}
 	if ep.Flow == "callback-valid" {
 		// a fresh browser starts a login WITHOUT forwarding headers; only the callback request carries them
@@ -383,7 +421,7 @@ func c16Pick(f map[string]string, keys []string) map[string]string {
 func TestVerif_C16(t *testing.T) {
 	run := vfNewRun(t, "C16", "exploration")
 	run.SetRule("reverse-proxy off: 27 base requests (protected, skip-auth path, api route, preflight, auth-only, start, sign_in GET/POST, sign_out, callback invalid/error/valid, static, userinfo, ping, robots; anonymous and with session) " +
-		"x all 2^6 subsets of {X-Forwarded-Host,-Proto,-Uri,-For, X-Real-IP, one other client-IP header} x value sets x 9 configurations (trusted IPs, skip-auth/api routes, whitelist + cookie domains, relative/absolute redirect-url, cookie-secure, skip-provider-button, wire driver, force-https) x peers; " +
+		"x all 2^6 subsets of {X-Forwarded-Host,-Proto,-Uri,-For, X-Real-IP, one other client-IP header} x value sets x 10 configurations (trusted IPs, skip-auth/api routes, whitelist + cookie domains, relative/absolute redirect-url, cookie-secure, skip-provider-button, wire driver, force-https over plain HTTP, force-https with every request over a real TLS listener) x peers; " +
 		"reverse-proxy on: 5 configured real-client-IP headers x value of that header x subsets of all other forwarding headers. cell = (config, endpoint, header subset, value set) / (rp-on, configured header, its value class, endpoint)")
 	run.Assume("forwarding headers received by the upstream are excluded from the comparison (legitimately passed through; the proxy appends the peer to X-Forwarded-For)",
 		"random parts are masked: nonce, code_challenge, the random half of state, cookie values, href of redirect bodies",
@@ -410,7 +448,20 @@ func TestVerif_C16(t *testing.T) {
 		if cfg.Wire {
 			p.Server()
 		}
-		if !cfg.NoAuth {
+		if cfg.OverTLS {
+			p.ServerTLS()
+			b, target, err := x.startLoginTLS("/")
+			if err != nil {
+				t.Fatalf("config %s: %v", cfg.Name, err)
+			}
+			r := p.WireTLS(vfGET(target, "Cookie", vfCookieHeader(b.Jar.For(cfg.Host, "/oauth2/callback", true))).WithHost(cfg.Host))
+			b.Jar.Apply(cfg.Host, "/oauth2/callback", r.SetCookies())
+			cs := b.Jar.For(cfg.Host, "/", true)
+			if r.Code != 302 || len(cs) == 0 {
+				t.Fatalf("config %s: login over TLS: status %d, %d cookies", cfg.Name, r.Code, len(cs))
+			}
+			x.Cookie = vfCookieHeader(cs)
+		} else if !cfg.NoAuth {
 			b := vfNewBrowser(cfg.Host)
 			b.HTTPS = cfg.HTTPS
 			if _, _, err := b.Login(p, vfStdIdentity, "/"); err != nil {
@@ -488,6 +539,12 @@ func TestVerif_C16(t *testing.T) {
 				cell := fmt.Sprintf("%s|%s|peer=%v|subset=%02x|%s", cfg.Name, j.ep.Name, j.peer != "", mask, vs.Name)
 				run.Eval(cell)
 				run.Count("pairs", 1)
+				if cfg.OverTLS {
+					run.Count("pairs_over_tls", 1)
+					if obs.Fields["status"] != "308" {
+						run.Count("pairs_over_tls_served_not_redirected", 1)
+					}
+				}
 				if obs.Fields["upstream-hit"] != "0" {
 					run.Count("pairs_reaching_upstream", 1)
 				}
@@ -512,6 +569,10 @@ func TestVerif_C16(t *testing.T) {
 				if cfg.Wire {
 					driver = "wire"
 				}
+				if cfg.OverTLS {
+					driver = "wire-tls"
+					run.Count("pairs_over_tls", 0)
+				}
 				run.Violation(c16Sig(d[0]), fmt.Sprintf("reverse-proxy off, config %q, %s: adding %v changes %v (%q -> %q)", cfg.Name, j.ep.Name, hdr, d, vfTrunc(base.Fields[d[0]], 160), vfTrunc(obs.Fields[d[0]], 160)),
 					c16Witness{Config: cfg.Name, Flags: j.x.P.Flags, Endpoint: j.ep.Name, Peer: j.peer, Driver: driver, Added: hdr, BaseRequest: baseReq, Request: req, RawRequest: raw,
 						Differing: d, Without: c16Pick(base.Fields, d), With: c16Pick(obs.Fields, d)})
@@ -524,6 +585,10 @@ func TestVerif_C16(t *testing.T) {
 	// ---- part 2: reverse-proxy on: only the configured client-IP header may move the trusted-IP decision ------------
 	c16ReverseProxyOn(run, w, rpOn)
 
+	if run.Counter("pairs_over_tls_served_not_redirected") < 800 {
+		fmt.Printf("INCONCLUSIVE property=C16 reason=too few pairs over the TLS listener (%d served of %d)\n", run.Counter("pairs_over_tls_served_not_redirected"), run.Counter("pairs_over_tls"))
+		t.Fail()
+	}
 	if run.Counter("pairs_reaching_upstream") < 200 || run.Counter("pairs_with_redirect") < 500 || run.Counter("pairs_with_set_cookie") < 300 || run.Counter("rp_on_pairs") < 500 {
 		fmt.Printf("INCONCLUSIVE property=C16 reason=too few observations of a kind (upstream %d, redirects %d, cookies %d, rp-on %d)\n",
 			run.Counter("pairs_reaching_upstream"), run.Counter("pairs_with_redirect"), run.Counter("pairs_with_set_cookie"), run.Counter("rp_on_pairs"))
